@@ -92,6 +92,29 @@ var shapes = []shape{
 	{"read k2", func() []*rig.OpAction {
 		return []*rig.OpAction{act([]rig.KeyPerm{dk(k2, state.Read)}, rig.Step{Kind: rig.Get, Key: k2})}
 	}},
+	// shapes used by the 4-transaction owner/reader patterns of part B only (appended so that
+	// the part-A enumeration keeps its indices)
+	{"put k1+k2", func() []*rig.OpAction {
+		return []*rig.OpAction{act([]rig.KeyPerm{dk(k1, state.All), dk(k2, state.All)}, rig.Step{Kind: rig.Put, Key: k1, Val: []byte("p")}, rig.Step{Kind: rig.Put, Key: k2, Val: []byte("q")})}
+	}},
+	{"append k2", func() []*rig.OpAction {
+		return []*rig.OpAction{act([]rig.KeyPerm{dk(k2, state.All)}, rig.Step{Kind: rig.Append, Key: k2, Val: []byte("d")})}
+	}},
+	{"copy k2->k3", func() []*rig.OpAction {
+		return []*rig.OpAction{act([]rig.KeyPerm{dk(k2, state.Read), dk(k3, state.All)}, rig.Step{Kind: rig.Copy, Key: k2, Val: []byte(k3)})}
+	}},
+}
+
+const partAShapes = 12 // part A enumerates blocks over the first 12 shapes
+
+// 4-transaction patterns: an owner of two keys, a reader of one of them, then writers of each
+// key (the reader must stay ordered before the later writer of ITS key even when a writer of
+// the owner's other key has come in between). Explored at preemption bound 0 (quick) / 1.
+var partB4 = [][]int{
+	{12, 14, 1, 13}, // W(k1,k2) ; R k2 -> k3 ; W k1 ; W k2
+	{12, 11, 13, 1}, // W(k1,k2) ; R k2 ; W k2 ; W k1
+	{12, 0, 13, 1},  // W(k1,k2) ; R k1 ; W k2 ; W k1
+	{3, 11, 1, 13},  // R k1 W k2 ; R k2 ; W k1 ; W k2
 }
 
 type blockSpec struct {
@@ -278,7 +301,7 @@ func (sr *scenarioRun) rootCheck(o *execObs) (string, string) {
 
 func blockSpecs(thorough bool) []blockSpec {
 	var out []blockSpec
-	n := len(shapes)
+	n := partAShapes
 	maxLen := 3
 	add := func(sh []int) {
 		for _, pres := range []bool{false, true} {
@@ -368,10 +391,19 @@ func main() {
 			continue // quick: two-transaction patterns only
 		}
 		for _, same := range []bool{false, true} {
-			if !r.Thorough() && (same || pi >= 8) {
-				continue // quick: the first eight two-transaction patterns, distinct sponsors
+			if !r.Thorough() && (same || pi >= 6) {
+				continue // quick: the first six two-transaction patterns, distinct sponsors
 			}
 			jobs = append(jobs, job{part: "B", bs: blockSpec{sh, true, same, -1}, c: cfg{2, 2, false}, bound: bBound})
+		}
+	}
+	b4Bound := evid.Pick(r, 0, 1)
+	for _, sh := range partB4 {
+		for ci, c := range []cfg{{2, 2, false}, {4, 2, false}} {
+			if ci > 0 && !r.Thorough() {
+				continue // quick: 2 cores (4 cores costs ~50x more executions)
+			}
+			jobs = append(jobs, job{part: "B", bs: blockSpec{sh, true, false, -1}, c: c, bound: b4Bound})
 		}
 	}
 	nB := len(jobs)
@@ -495,7 +527,7 @@ func main() {
 	r.Cov["invalid_blocks"] = tot["invalid_blocks"]
 	r.Cov["preemption_bound_partB"] = bBound
 	r.Cov["configs_partA"] = fmt.Sprint(partAConfigs)
-	r.Cov["rule"] = "part A: every block of <=3 transactions from a 12-shape menu (thorough: + 4-tx blocks over 6 order-sensitive shapes) x parent {empty, populated} x sponsors {distinct, shared} (+ an unfunded sponsor) x 6 core/prefetch/signature-worker configurations, one deterministic schedule each (the schedule dimension is part B's); part B: 15 conflict patterns x sponsors {distinct, shared}, 2 cores, 2 prefetch workers, every interleaving up to the preemption bound (HB-pruned); oracle = sequential application of the same transactions; non-trivial = complete executions in which >=2 threads touched a common object"
+	r.Cov["rule"] = "part A: every block of <=3 transactions from a 12-shape menu (thorough: + 4-tx blocks over 6 order-sensitive shapes) x parent {empty, populated} x sponsors {distinct, shared} (+ an unfunded sponsor) x 6 core/prefetch/signature-worker configurations, one deterministic schedule each (the schedule dimension is part B's); part B: 15 conflict patterns x sponsors {distinct, shared}, 2 cores, 2 prefetch workers, every interleaving up to the preemption bound (HB-pruned), plus 4 four-transaction owner/reader/writer patterns at preemption bound 0 (quick, 2 cores) / 1 (thorough, 2 and 4 cores); oracle = sequential application of the same transactions; non-trivial = complete executions in which >=2 threads touched a common object"
 	r.Assumptions = []string{"sequential consistency; data races are the business of the separate -race pass", "merkledb itself is not instrumented (its internal concurrency is outside the property)", "the reference applies transactions one at a time with the same Transaction.PreExecute/Execute (the per-transaction semantics are C03/C04/C05's business)"}
 	r.Finish()
 }
